@@ -20,6 +20,7 @@ type Config struct {
 	Shard    int // this process explores the level-1 alternatives with index % NShards == Shard
 	NShards  int
 	NoCache  bool
+	Delay    bool // Bound counts delays (deviations from the deterministic default scheduler) instead of preemptions
 	KeepLog  bool
 }
 
@@ -91,7 +92,7 @@ func (x *explorer) budget(pre int) int8 {
 	return int8(x.cfg.Bound - pre)
 }
 
-func (x *explorer) runOnce(prefix []int, keepLog bool) *Exec {
+func (x *explorer) runOnce(prefix []int, expect []uint64, keepLog bool) *Exec {
 	e := &Exec{
 		yieldCh:    make(chan *Task),
 		chans:      map[uintptr]*chanState{},
@@ -102,6 +103,7 @@ func (x *explorer) runOnce(prefix []int, keepLog bool) *Exec {
 		prefix:     prefix,
 		wantLog:    keepLog,
 		keyRunning: x.cfg.Bound >= 0,
+		delayMode:  x.cfg.Delay && x.cfg.Bound >= 0,
 	}
 	e.H = &H{e: e, params: x.cfg.Params}
 	if !x.cfg.NoCache && x.post != nil {
@@ -139,12 +141,11 @@ func (x *explorer) record(e *Exec) {
 	if e.hitCap {
 		r.HorizonHits++
 	}
-	if e.aborted {
-		return
-	}
-	r.Complete++
-	for _, o := range e.outcomes {
-		r.Outcomes[o]++
+	if !e.aborted {
+		r.Complete++
+		for _, o := range e.outcomes {
+			r.Outcomes[o]++
+		}
 	}
 	for _, f := range e.fails {
 		if x.seenSig[f.Signature] {
@@ -158,7 +159,7 @@ func (x *explorer) record(e *Exec) {
 		for rep := 0; rep < 2; rep++ {
 			save := x.post
 			x.post = nil
-			e2 := x.runOnce(ch, true)
+			e2 := x.runOnce(ch, descs(e), true)
 			x.post = save
 			r.Executions++
 			r.Transitions += e2.steps
@@ -197,24 +198,22 @@ func (x *explorer) capped() bool {
 	return false
 }
 
-func (x *explorer) explore(prefix []int, depth int) {
+func descs(e *Exec) []uint64 {
+	d := make([]uint64, len(e.Points))
+	for i := range e.Points {
+		d[i] = e.Points[i].Desc
+	}
+	return d
+}
+
+func (x *explorer) explore(prefix []int, expect []uint64, depth int) {
 	if x.capped() {
 		return
 	}
-	e := x.runOnce(prefix, false)
+	e := x.runOnce(prefix, expect, false)
 	x.record(e)
-	if e.aborted || e.diverged != "" {
+	if e.diverged != "" {
 		return
-	}
-	// mark the default continuation as expanded
-	if !x.cfg.NoCache {
-		for i := len(prefix); i < len(e.Points); i++ {
-			p := &e.Points[i]
-			b := x.budget(p.PreBefore + int(p.Costs[0]))
-			if v, ok := x.pre[p.PreKeys[0]]; !ok || v < b {
-				x.pre[p.PreKeys[0]] = b
-			}
-		}
 	}
 	unit := 0
 	for i := len(prefix); i < len(e.Points); i++ {
@@ -232,16 +231,19 @@ func (x *explorer) explore(prefix []int, depth int) {
 			}
 			if !x.cfg.NoCache {
 				b := x.budget(cost)
-				if v, ok := x.pre[p.PreKeys[alt]]; ok && v >= b {
+				if v, ok := x.post[p.PreKeys[alt]]; ok && v >= b {
 					x.res.Pruned++
 					continue
 				}
-				x.pre[p.PreKeys[alt]] = b
+				if _, ok := x.post[p.PreKeys[alt]]; !ok {
+					x.res.States++
+				}
+				x.post[p.PreKeys[alt]] = b
 			}
 			np := make([]int, i+1)
 			copy(np, e.Choices[:i])
 			np[i] = alt
-			x.explore(np, depth+1)
+			x.explore(np, descs(e)[:i+1], depth+1)
 			if x.capped() {
 				return
 			}
@@ -256,7 +258,7 @@ func Explore(cfg Config, harness func(*H)) *Result {
 	}
 	x := &explorer{cfg: cfg, harness: harness, res: &Result{Outcomes: map[string]int64{}},
 		pre: map[sigKey]int8{}, post: map[sigKey]int8{}, seenSig: map[string]bool{}}
-	x.explore(nil, 0)
+	x.explore(nil, nil, 0)
 	sort.Slice(x.res.Failures, func(i, j int) bool { return x.res.Failures[i].Signature < x.res.Failures[j].Signature })
 	return x.res
 }
@@ -267,6 +269,6 @@ func Replay(cfg Config, harness func(*H), choices []int) (fails []Failure, log [
 		cfg.Horizon = 20000
 	}
 	x := &explorer{cfg: cfg, harness: harness, res: &Result{Outcomes: map[string]int64{}}}
-	e := x.runOnce(choices, true)
+	e := x.runOnce(choices, nil, true)
 	return e.fails, e.log, e.diverged
 }
